@@ -107,6 +107,12 @@ CFGS = {
                            "lower": {"cosmo": {"ok": -0.3}, "lens": {"lambda_mst": 0.5}},
                            "upper": {"cosmo": {"ok": 0.3}, "lens": {"lambda_mst": 1.5}},
                            "fixed": {"cosmo": {"h0": 70.0, "om": 0.3}}, "center": [0.0, 1.0], "width": [0.05, 0.05]},
+    # two parameters of the same block with DIFFERENT boxes and start points: names, bounds and start vectors must line up
+    "flcdm_ab": {"cosmology": "FLCDM", "lenses": 2,
+                 "model": {"lambda_mst_sampling": True, "alpha_lambda_sampling": True, "beta_lambda_sampling": True},
+                 "lower": {"cosmo": {"h0": 50}, "lens": {"lambda_mst": 0.5, "alpha_lambda": -0.3, "beta_lambda": 0.1}},
+                 "upper": {"cosmo": {"h0": 100}, "lens": {"lambda_mst": 1.5, "alpha_lambda": 0.0, "beta_lambda": 0.4}},
+                 "fixed": {"cosmo": {"om": 0.3}}, "center": [70.0, 1.0, -0.15, 0.25], "width": [3.0, 0.05, 0.03, 0.03]},
     "flcdm2_fixed_om": {"cosmology": "FLCDM", "lenses": 2, "model": {"lambda_mst_sampling": True},
                         "lower": {"cosmo": {"h0": 50}, "lens": {"lambda_mst": 0.5}},
                         "upper": {"cosmo": {"h0": 100}, "lens": {"lambda_mst": 1.5}},
@@ -146,6 +152,22 @@ def build_sampler(name, cached=True):
     if cached:
         _SAMPLERS[name] = s
     return s
+
+
+def user_box(name, s):
+    """the prior box as the USER stated it: for every sampled parameter, looked up BY NAME (param_names()) in the
+    lower / upper dictionaries handed to the sampler — independent of the library's own bound vectors"""
+    c = CFGS[name]
+    lo, hi = [], []
+    for nm in s.param_names():
+        for blk in ("cosmo", "lens", "kin"):
+            if nm in c["lower"].get(blk, {}):
+                lo.append(float(c["lower"][blk][nm]))
+                hi.append(float(c["upper"][blk][nm]))
+                break
+        else:
+            raise KeyError("no user bound for %r" % nm)
+    return np.array(lo), np.array(hi)
 
 
 def vec2kwargs(s, vec):
@@ -272,7 +294,7 @@ def in_box(x, lo, hi):
 def oracle(name, hist, obs, rng, reeval_max):
     """the property statement evaluated on the implementation.  returns [(signature, what)]"""
     s = build_sampler(name)
-    lo, hi = (np.array(v, dtype=float) for v in s.param.param_bounds)
+    lo, hi = user_box(name, s)
     nd = s.param.num_param
     like = type(s.chain).likelihood.__get__(s.chain)
     fails = []
@@ -443,6 +465,13 @@ def names_oracle(name):
     lo, hi = s.param.param_bounds
     if len(lo) != nd or len(hi) != nd:
         fails.append(("param_names:length", "bounds have %d/%d entries for %d parameters" % (len(lo), len(hi), nd)))
+    else:
+        ulo, uhi = user_box(name, s)
+        for i, nm in enumerate(names):
+            if float(lo[i]) != ulo[i] or float(hi[i]) != uhi[i]:
+                fails.append(("param_names:bounds", "component %d is named %r but is confined to [%r, %r]; the user's box for %r is [%r, %r]"
+                              % (i, nm, float(lo[i]), float(hi[i]), nm, ulo[i], uhi[i])))
+                break
     return fails
 
 
@@ -616,8 +645,8 @@ def fixed_histories(rng):
     # no backend keyword at all
     out.append(("flcdm3", {"backend": "none", "ops": [mk_op(False, 8, 1, 2, CFGS["flcdm3"]["center"], CFGS["flcdm3"]["width"], 51)]}))
     # every block of the cosmology that is still sampled must be followed by the likelihood: h0 and om fixed, w / ok free
-    for nm in ("fwcdm2_fixed_h0_om", "olcdm2_fixed_h0_om"):
-        out.append((nm, {"backend": "mem", "ops": [mk_op(False, 8, 1, 2, CFGS[nm]["center"], CFGS[nm]["width"], 71)]}))
+    for nm in ("fwcdm2_fixed_h0_om", "olcdm2_fixed_h0_om", "flcdm_ab"):
+        out.append((nm, {"backend": "mem", "ops": [mk_op(False, 8 if nm != "flcdm_ab" else 10, 1, 2, CFGS[nm]["center"], CFGS[nm]["width"], 71)]}))
     # continue with another walker count than the store (documented misuse, model/impl error class only)
     out.append(("flcdm2", {"backend": "mem", "ops": [mk_op(False, 8, 0, 2, m, sg, 61), mk_op(True, 10, 0, 2, m, sg, 62)]}))
     return out
@@ -775,7 +804,7 @@ def run(ctx, res):
     thorough = ctx.tier == "thorough"
     reeval = 10 ** 6 if thorough else 6
     names = list(CFGS)
-    for nm in (names if thorough else ["flcdm2", "flcdm3", "fwcdm4"]):
+    for nm in (names if thorough else ["flcdm2", "flcdm3", "fwcdm4", "flcdm_ab"]):
         res.evaluations += 1
         for sig, what in names_oracle(nm):
             res.violation(sig, "%s: %s" % (nm, what), {"cfg": nm, "names_only": True})
@@ -793,7 +822,7 @@ def run(ctx, res):
         hists += sweep_histories(rng, "fix2", 8, 1, 2, ["mem", "hdf"])
         nrand = 8 if not ctx.search_mode else 16
     for _ in range(nrand):
-        hists.append(gen_random_history(rng, names if thorough else ["flcdm2", "flcdm3", "fwcdm4", "flcdm2_fixed_om", "fwcdm2_fixed_h0_om", "olcdm2_fixed_h0_om"]))
+        hists.append(gen_random_history(rng, names if thorough else ["flcdm2", "flcdm3", "fwcdm4", "flcdm2_fixed_om", "fwcdm2_fixed_h0_om", "olcdm2_fixed_h0_om", "flcdm_ab"]))
     refs = {}
     for name, hist in hists:
         obs = judge(ctx, res, name, hist, reeval, cases)
